@@ -57,12 +57,13 @@ def _fix_value(v):
         if isinstance(a, str):
             if isinstance(prev, str):
                 out[-1] += a
-            elif prev is not None and prev[0] == '$' and (a[0].isdigit() or a[0] in '@^-$'):
+            elif prev is not None and prev[0] == '$' and (a[0].isdigit() or a[0] in '@^-$#'):
                 out.append('_' + a)
             else:
                 out.append(a)
         else:
-            if prev is not None and not isinstance(prev, str):
+            if prev is not None and not isinstance(prev, str) and prev[0] in '$#' and a[0] in '$#b':
+                # `$$`, `$#`, `$#$`, `${` would be read as one token / a field
                 out.append('_')
             out.append(a)
     return out
@@ -78,6 +79,26 @@ def mention(p):
         )
     if p.mentions == 'full':
         return full_mention(p)
+    if p.mentions == 'paren':
+        pv = st.text(alphabet=list('ab1()'), min_size=1, max_size=4)
+        def bal(s):
+            # unquoted values must keep brackets balanced (the attribute parser counts them); quoted ones need not
+            d = 0
+            out = []
+            for c in s:
+                if c == ')':
+                    if d == 0:
+                        continue
+                    d -= 1
+                elif c == '(':
+                    d += 1
+                out.append(c)
+            return ''.join(out) + ')' * d or 'a'
+        return st.one_of(
+            st.builds(lambda v: ['.', v], simple_value(p)),
+            st.builds(lambda v: ['a', 'title', 'raw', [bal(v)], False], pv),
+            st.builds(lambda v, f: ['a', 'data-a', f, [v], False], st.text(alphabet=list('ab ()[]{}*>+^!'), min_size=0, max_size=5), st.sampled_from(['dq', 'sq'])),
+        )
     raise ValueError(p.mentions)
 
 
@@ -122,9 +143,24 @@ def fix_mentions(ms):
     return ms
 
 
+ESCAPABLE = list('$\\{}*>+^()[]\'"=/!@#.:- aZ1') + ['é']
+
+
 def text_value(p):
     if p.text_kind == 'simple':
         return simple_value(p, 'abcT', 3)
+    if p.text_kind == 'full':
+        plain = st.text(alphabet=TEXT_PLAIN, min_size=1, max_size=5)
+        esc = st.sampled_from(ESCAPABLE).map(lambda c: ['e', c])
+        atoms = [plain, plain, plain, esc]
+        if p.counters:
+            atoms.append(counter_atom(p))
+        if getattr(p, 'placeholders', False):
+            atoms.append(st.just(['#']))
+        leaf = st.lists(st.one_of(*atoms), min_size=0, max_size=4)
+        nested = st.lists(st.one_of(*(atoms + [leaf.map(lambda v: ['b', _fix_value(v)])])), min_size=0, max_size=5)
+        deep = st.lists(st.one_of(*(atoms + [nested.map(lambda v: ['b', _fix_value(v)])])), min_size=0, max_size=5)
+        return deep.map(_fix_value)
     raise ValueError(p.text_kind)
 
 
